@@ -88,6 +88,10 @@ def gen_params(rng, model):
             vals = [rng.choice([0.5, 1, 2, 3, 5]) for _ in slates[s]]
             if len(vals) > 1 and rng.random() < 0.2 and model not in ("AlternatingCrossover",):
                 vals[rng.randrange(len(vals))] = 0
+            if len(vals) >= 3 and rng.random() < 0.12:
+                # two strictly positive but tiny supports (ratio 3:2): their relative order is still a Plackett-Luce draw
+                i, j = rng.sample(range(len(vals)), 2)
+                vals[i], vals[j] = 3e-9, 2e-9
             items = list(zip(slates[s], vals))
             if rng.random() < 0.5:
                 rng.shuffle(items)  # the interval's key order need not be the slate's listing order
